@@ -1,12 +1,14 @@
 import Cuke.Model.Attempt
 import Cuke.Props.C02
 import Cuke.Props.C09
+import Cuke.Lemmas.SchedSpin
 /-!
 # C10 — Panics in user code are contained and reported, never lost or propagated
 Attempt level: `runAttempt` is a total function of the outcome assignment in which a panic is an
 outcome VALUE (`catch_unwind`); the theorems say what every such assignment yields.
-(The run-level clauses — other scenarios unaffected, run-Finished, panic hook silenced/restored — are
-stated on the scheduler model and checked by the harness monitors.)
+Run level (end of this file): the panic-hook window as an invariant of whole runs of the scheduler LTS
+(Lemmas/SchedSpin.lean); "other scenarios unaffected" is the conservation theorem of C04 (`lts_all_created_ended`:
+every created attempt ends, whatever fails) and "the run still ends with run-Finished" the exit theorems of C03 / C08.
 -/
 namespace Cuke.C10
 open Cuke List
@@ -143,5 +145,73 @@ def exAll : AttemptSpec :=
 example : (runAttempt exAll 1).events =
     [.started, .hook .before .started, .hook .before (.failed 1), .hook .after .started, .hook .after (.failed 2), .finished] ∧
     (runAttempt exAll 1).failed = true := by decide
+
+/-! ## Run level: the panic-hook window, over whole runs of the scheduler LTS -/
+open Cuke.SchedSpin Cuke.SchedOrd
+
+/-- **Silenced while anything is in flight.** In every log replayed without a disagreement, at every moment at which
+    an attempt is dispatched and not yet ended, or a batch has been handed out by `features.get`, the process panic
+    hook is the silent one `execute` installed at its start (`HOOK take` seen, `HOOK restore` not yet). -/
+theorem lts_panic_hook_silenced_while_in_flight (c : SCfg) (ls : List Label) (hc : Clean0 (accept c ls) = true)
+    (h : (accept c ls).running ≠ [] ∨ (accept c ls).batch ≠ []) : (accept c ls).hookTaken = true := by
+  have hi := sinv_accept c ls hc
+  cases hp : (accept c ls).phase with
+  | init => have := hi.h0 hp; rcases h with h | h; exact absurd this.2.1 h; exact absurd this.2.2 h
+  | exiting => have := hi.h2 (Or.inl hp); rcases h with h | h; exact absurd this.1 h; exact absurd this.2 h
+  | exited => have := hi.h2 (Or.inr hp); rcases h with h | h; exact absurd this.1 h; exact absurd this.2 h
+  | loopTop => exact hi.h1 (by simp [hp, loopPhase])
+  | afterGet1 => exact hi.h1 (by simp [hp, loopPhase])
+  | afterGet2 => exact hi.h1 (by simp [hp, loopPhase])
+  | idle1 => exact hi.h1 (by simp [hp, loopPhase])
+  | idle2 => exact hi.h1 (by simp [hp, loopPhase])
+  | selecting => exact hi.h1 (by simp [hp, loopPhase])
+  | draining => exact hi.h1 (by simp [hp, loopPhase])
+
+/-- **Every scenario event is sent inside the window**: when an event of a scenario attempt is sent — in particular a
+    `Failed` event carrying a panic payload — the silent hook is installed (the panic that caused it printed nothing). -/
+theorem lts_scenario_event_only_while_silenced (c : SCfg) (pre : List Label) (k : ScenKey) (ret : Option Retries)
+    (se : ScenEv) (hc : Clean0 (accept c (pre ++ [.tx (.scen k ret se)])) = true) :
+    (accept c pre).hookTaken = true := by
+  have hstep : accept c (pre ++ [.tx (.scen k ret se)]) = stepL c (accept c pre) (.tx (.scen k ret se)) := by
+    simp [accept, foldl_append]
+  rw [hstep] at hc
+  obtain ⟨e, he, _⟩ := tx_scen_running c (accept c pre) k ret se hc
+  exact lts_panic_hook_silenced_while_in_flight c pre (clean0_step_mono c _ _ hc)
+    (Or.inl (fun hn => by rw [hn] at he; cases he))
+
+/-- **Restored when `execute` returns**: once the log shows `EXIT`, the hook saved at the start is back in place, and
+    nothing is in flight. -/
+theorem lts_panic_hook_restored_at_exit (c : SCfg) (ls : List Label) (hc : Clean0 (accept c ls) = true)
+    (hx : (accept c ls).phase = .exited) :
+    (accept c ls).hookTaken = false ∧ (accept c ls).running = [] := by
+  have hi := sinv_accept c ls hc
+  exact ⟨hi.h3 hx, (hi.h2 (Or.inr hx)).1⟩
+
+/-! non-vacuity: a complete clean run of one scenario whose first attempt FAILS and is retried: silenced while the
+    failing attempt is in flight, restored at the end -/
+def hcfg : SCfg :=
+  { builderConc := some (some 2), cliConc := none, builderFF := false, cliFF := false, builderRetries := none,
+    cliRetries := none, builderAfter := none, cliAfter := none, customWhich := false, durTable := [],
+    feats := [⟨0, [], [⟨1, ["retry(2)"], 1⟩], []⟩] }
+def hk1 : ScenKey := ⟨0, none, 1⟩
+def hlog : List Label :=
+  [.hookTake, .tx .started, .pOk 0, .ins 0 [] [⟨10, 1, some ⟨0, 2⟩, none⟩], .pEnd, .tx (.parsingFinished 1 0 1 1 0), .pFinish,
+   .get1 1 (some 2) 0 1, .get2 1 (.cont (some 2)) [10] false 0, .tx (.featStarted 0), .disp 1 (.cont (some 1)),
+   .tx (.scen hk1 (some ⟨0, 2⟩) .started), .tx (.scen hk1 (some ⟨0, 2⟩) .finished),
+   .ins 2 [] [⟨11, 1, some ⟨1, 1⟩, none⟩], .endA 10 true true 2,
+   .cons true, .notif 10 true true,
+   .get1 3 (some 2) 0 1, .get2 3 (.cont (some 2)) [11] false 0, .disp 1 (.cont (some 1)),
+   .tx (.scen hk1 (some ⟨1, 1⟩) .started), .tx (.scen hk1 (some ⟨1, 1⟩) .finished), .endA 11 false false 4,
+   .cons true, .notif 11 false false, .tx (.featFinished 0),
+   .get1 5 (some 2) 0 0, .get2 5 (.cont (some 2)) [] false 0, .idle true false, .tx .finished, .hookRestore, .exit]
+
+example :
+    Clean0 (accept hcfg hlog) = true ∧ (accept hcfg hlog).phase = .exited ∧ (accept hcfg hlog).hookTaken = false ∧
+    (accept hcfg (hlog.take 12)).running.length = 1 ∧ (accept hcfg (hlog.take 12)).hookTaken = true := by
+  decide +kernel
+
+/-- a log in which `execute` returns without putting the hook back is rejected (class I) -/
+example : (accept hcfg (hlog.take 30 ++ [.exit])).dis.any (fun d => d.cls == .I) = true := by
+  decide +kernel
 
 end Cuke.C10
